@@ -211,51 +211,81 @@ def run(ctx):
                         ctx.count("truncated-accepted-with-None-entries")
                     elif (r2[0] == 0) != (m2[0] == 0) or (r2[0] == 1 and r2 != m2):
                         ctx.disagree(dict(d2, index_bytes_hex=bad.hex()), str(r2)[:500], str(m2)[:500], "malformed index: model and reader differ")
-    # ---- (d) bin arithmetic: translated helpers vs the real ones ------------------------
-    calls = []
-    expect = []
+    # ---- (d) bin arithmetic: the real helpers vs the closed-form model (theorem-backed) and
+    #          vs the TRANSLATED helpers (validates translator + Base/Prims.v) ------------
+    bin_helpers(ctx)
 
-    def add(op, arg, fn):
-        calls.append((op, arg))
+
+def bin_helpers(ctx, only=None):
+    from bio2zarr import vcf_utils
+
+    rnd = ctx.rnd
+    cases = []  # (name, args, model_op, model_arg, gen_op, gen_arg, thunk)
+
+    def add(name, args, mop, marg, gop, garg, fn):
+        cases.append((name, args, mop, marg, gop, garg, fn))
+
+    def add_bin(depth, ms, b):
+        csi = SimpleNamespace(depth=depth, min_shift=ms)
+        add("get_level_for_bin", [depth, b], 913, [depth, b], 6, [depth, b], lambda: vcf_utils.get_level_for_bin(csi, b))
+        add("get_first_locus_in_bin", [depth, ms, b], 914, [ms, depth, b], 7, [depth, ms, b], lambda: vcf_utils.get_first_locus_in_bin(csi, b))
+
+    if only is not None:
+        name, args = only
+        if name in ("get_level_for_bin",):
+            add_bin(args[0], 14, args[1])
+        elif name == "get_first_locus_in_bin":
+            add_bin(args[0], args[1], args[2])
+        cases[:] = [c for c in cases if c[0] == name]
+    else:
+        for depth in range(0, ctx.n(5, 6) + 1):
+            ms = rnd.randint(9, 20)
+            lim = vcf_utils.bin_limit(ms, depth)
+            add("bin_limit", [ms, depth], 912, [depth], 3, [ms, depth], lambda ms=ms, depth=depth: vcf_utils.bin_limit(ms, depth))
+            add("get_first_bin_in_level", [depth], 910, [depth], 4, [depth], lambda depth=depth: vcf_utils.get_first_bin_in_level(depth))
+            add("get_level_size", [depth], 911, [depth], 5, [depth], lambda depth=depth: vcf_utils.get_level_size(depth))
+            for b in range(0, lim + 2):
+                add_bin(depth, ms, b)
+        for _ in range(ctx.n(4000, 200000)):
+            depth = rnd.randint(0, 8)
+            ms = rnd.randint(9, 20)
+            add_bin(depth, ms, rnd.randint(0, vcf_utils.bin_limit(ms, depth) + 1))
+            v = rnd.choice([rnd.randint(0, 2**64 - 1), rnd.randint(0, 2**20), (rnd.randint(0, 2**40) << 16) | rnd.randint(0, 65535)])
+            add("get_file_offset", [v], 915, [v], 2, [v], lambda v=v: vcf_utils.get_file_offset(v))
+    impl = []
+    for c in cases:
         try:
-            expect.append(fn())
+            impl.append(c[6]())
         except ValueError:
-            expect.append("ValueError")
-
-    for depth in range(0, ctx.n(5, 6) + 1):
-        ms = rnd.randint(9, 20)
-        csi = SimpleNamespace(depth=depth, min_shift=ms)
-        lim = vcf_utils.bin_limit(ms, depth)
-        add(3, [ms, depth], lambda: vcf_utils.bin_limit(ms, depth))
-        add(4, [depth], lambda: vcf_utils.get_first_bin_in_level(depth))
-        add(5, [depth], lambda: vcf_utils.get_level_size(depth))
-        for b in range(0, lim + 2):
-            add(6, [depth, b], lambda b=b: vcf_utils.get_level_for_bin(csi, b))
-            add(7, [depth, ms, b], lambda b=b: vcf_utils.get_first_locus_in_bin(csi, b))
-    for _ in range(ctx.n(4000, 200000)):
-        depth = rnd.randint(0, 8)
-        ms = rnd.randint(9, 20)
-        csi = SimpleNamespace(depth=depth, min_shift=ms)
-        b = rnd.randint(0, vcf_utils.bin_limit(ms, depth) + 1)
-        add(6, [depth, b], lambda: vcf_utils.get_level_for_bin(csi, b))
-        add(7, [depth, ms, b], lambda: vcf_utils.get_first_locus_in_bin(csi, b))
-        v = rnd.choice([rnd.randint(0, 2**64 - 1), rnd.randint(0, 2**20), (rnd.randint(0, 2**40) << 16) | rnd.randint(0, 65535)])
-        add(2, [v], lambda: vcf_utils.get_file_offset(v))
-        a, bb = rnd.randint(0, 10**12), rnd.randint(1, 10**9)
-        add(1, [a, bb], lambda: vcf_utils.ceildiv(a, bb))
-    outs = ctx.genmodel.batch(calls)
-    nb = 0
-    for (op, arg), e, o in zip(calls, expect, outs):
-        nb += 1
-        got = o if isinstance(o, int) else (o[1] if o[0] == 1 else "ValueError")
-        if got != e:
-            ctx.disagree(dict(origin="bin-helper", op=op, arg=arg), e, got, "translated bin helper differs from the real function")
-    ctx.evaluations += nb
-    ctx.count("bin-helper-evaluations", nb)
-    ctx.distribution["bin-helper-exhaustive-depths"] = f"0..{ctx.n(5, 6)}"
+            impl.append("ValueError")
+        except Exception as e:  # noqa: BLE001
+            impl.append("ERR:" + type(e).__name__)
+    mouts = ctx.model.batch([(c[2], c[3]) for c in cases])
+    try:
+        gouts = ctx.genmodel.batch([(c[4], c[5]) for c in cases])
+    except Exception as e:  # noqa: BLE001
+        gouts = None
+        ctx.note("translated helpers not available: " + str(e)[:100])
+    for i, c in enumerate(cases):
+        m = mouts[i]
+        want = m if isinstance(m, int) else (m[0] if m else "ValueError")
+        if impl[i] != want:
+            ctx.fail(dict(origin="bin-helper", fn=c[0], args=c[1]), dict(implementation=impl[i], closed_form=want),
+                     f"{c[0]}{tuple(c[1])} = {impl[i]}, the CSI bin arithmetic gives {want}")
+        if gouts is not None:
+            g = gouts[i]
+            got = g if isinstance(g, int) else (g[1] if g[0] == 1 else "ValueError")
+            if got != impl[i]:
+                ctx.disagree(dict(origin="bin-helper", fn=c[0], args=c[1]), impl[i], got, "translated helper differs from the real function")
+    ctx.evaluations += len(cases)
+    ctx.count("bin-helper-evaluations", len(cases))
+    if only is None:
+        ctx.distribution["bin-helper-exhaustive-depths"] = f"0..{ctx.n(5, 6)}"
 
 
 def replay(ctx, rep):
     c = rep["case"]
+    if c.get("origin") == "bin-helper":
+        return bin_helpers(ctx, only=(c["fn"], c["args"]))
     raw = bytes.fromhex(c["index_bytes_hex"])
     compare_bytes(ctx, c.get("kind") or ("csi" if raw[:3] == b"CSI" else "tbi"), raw, dict(origin="replay"), tmpdir=ctx.work)
